@@ -549,7 +549,7 @@ func init() {
 		Assumptions: []string{"[]*numeric fields are not claimed (the statement is ambiguous there)", "struct types are made with reflect.StructOf and built through the public Build as the only member of Union[any]"},
 		Batches:     func(t string) int { return 1 },
 		Floor:       func(t string) int { return pick(t, 3000, 20000) },
-		TimeoutSec:  func(t string) int { return pick(t, 600, 1800) },
+		TimeoutSec:  func(t string) int { return pick(t, 120, 1800) },
 		Child:       c17Child,
 	})
 }
